@@ -216,7 +216,11 @@ func (ex *Exec) posString(p token.Pos) string {
 		return "?"
 	}
 	pp := ex.E.Fset.Position(p)
-	return fmt.Sprintf("%s:%d", strings.TrimPrefix(pp.Filename, "/repo/"), pp.Line)
+	fn := pp.Filename
+	if r := os.Getenv("SSE_REPO"); r != "" {
+		fn = strings.TrimPrefix(fn, r+"/")
+	}
+	return fmt.Sprintf("%s:%d", strings.TrimPrefix(fn, "/repo/"), pp.Line)
 }
 
 // RunPath executes harness fn along the decisions of item.
